@@ -40,14 +40,14 @@ CHECKS = {
    note="Trusted: the stack switch and fill code (sim/seams/stackctx.cc), the allocator shim. Not compared: bytes beyond the returned length, struct padding, metadata out-fields. Caller-owned in/out metadata is only passed in documented states."),
  "C09": dict(engine="E-HIST hist.packed + E-TRACE footprint", category="exploration",
    technique="deterministic simulation: seeded operation histories against a reference bit-stream image, access tracer as footprint monitor",
-   text="Operation histories (set/get/increment/halve; sorted insert, delete-member, member, lower bound; positional insert/delete) on 107 generated instantiations of varintPacked.h - every bit width 1-32 with default 32-bit slots, compact slots, explicit 8/16/64-bit slots and the micro-promotion variant used by varintDimension.c, wherever an element never spans more than two slots. After each operation the complete storage block (guards, all elements, spare bits) is compared with an independently computed little-endian bit-stream image, return values with a sorted-vector model (member = first equal element or -1), and for the single-element operations the traced accesses must lie inside the slots the element occupies. This family decides the history and footprint parts of the statement; the inputs x configurations part is covered only as far as the swarm makes every (width, slot type, position mod slot period) occur.",
+   text="Operation histories (set/get/increment/halve; sorted insert, delete-member, member, lower bound; positional insert/delete) on 112 generated instantiations of varintPacked.h - every bit width 1-32 with default 32-bit slots, compact slots, explicit 8/16/64-bit slots, the micro-promotion variant used by varintDimension.c and five instantiations with 8-/16-bit length types (PACK_MAX_ELEMENTS), wherever an element never spans more than two slots; arrays from one slot period up to 70000 elements; the *Bytes convenience forms included. After each operation the complete storage block (guards, all elements, spare bits) is compared with an independently computed little-endian bit-stream image, return values with a sorted-vector model (member = first equal element or -1), and for the single-element operations the traced accesses must lie inside the slots the element occupies. This family decides the history and footprint parts of the statement; the inputs x configurations part is covered only as far as the swarm makes every (width, slot type, position mod slot period) occur.",
    design_ref="DESIGN.md 3/C09",
    note="Trusted: the reference bit-stream model, the generated shim (tools/gen_packed_shim.py), clang's TSan instrumentation pass for which accesses are seen, the mem* wrappers. SetIncr only in its stated domain."),
- "C10": dict(engine="E-HIST hist.matrix", category="exploration",
+ "C10": dict(engine="E-HIST hist.matrix + hist.hugematrix", category="exploration",
    technique="deterministic simulation: seeded cell-write histories against a byte image model under ASan",
-   text="create(rows, cols) for all 72 header shapes (row width 0-8 x column width 1-8) followed by histories of cell writes and reads of one entry kind (bit set/clear/toggle, unsigned 1-8 bytes, float, double): the header must occupy exactly the announced number of bytes and hold the little-endian counts, the packed single-integer form must round-trip, every read must return the written value, toggle must return the previous value, set(false) must clear, and after every write the whole exact-size buffer must equal the model image so that no other cell and no header byte changed. History part of the statement; the pure header round trip over all 2^64 pairs is sampled, not enumerated.",
+   text="create(rows, cols) for all 72 header shapes (row width 0-8 x column width 1-8) followed by histories of cell writes and reads of one entry kind (bit set/clear/toggle, unsigned 1-8 bytes, float, double): the header must occupy exactly the announced number of bytes and hold the little-endian counts, the packed single-integer form must round-trip, every read must return the written value, toggle must return the previous value, set(false) must clear, and after every write the whole exact-size buffer must equal the model image so that no other cell and no header byte changed. A second engine addresses matrices of up to 1 GiB (cell indices beyond 2^32) on untouched NORESERVE mappings with a sparse model and alias probes; half-float entries are included when the CPU has F16C. History part of the statement; the pure header round trip over all 2^64 pairs is sampled, not enumerated.",
    design_ref="DESIGN.md 3/C10",
-   note="Trusted: the byte image model; ASan redzones as guard. Bodies above 256 KiB are addressed in row 0 only. Half-float entries need __F16C__, which the build flags do not define."),
+   note="Trusted: the byte image model; ASan redzones as guard. In hist.matrix bodies above 256 KiB are addressed in row 0 only; hist.hugematrix compares the written bytes, their neighbourhood and alias candidates rather than the whole body. Half-float entries need a CPU with F16C."),
  "C17": dict(engine="E-FIBER + E-TRACE fiber", category="exploration",
    technique="deterministic simulation: seeded fiber scheduler at compiler-inserted yield points + conflict detector",
    text="2-16 simulated threads (cooperative fibers) call the codecs documented as pure - scalar put/get of every family, delta, FOR, PFOR, group, dictionary (incl. a shared read-only prebuilt dictionary), RLE, Elias, BP128, float, adaptive, packed arrays and bitstreams on slot/word-disjoint slices of shared storage - on shared inputs and private outputs. Library code is compiled with TSan's instrumentation pass but linked against the simulator's own callbacks, so every load, store, memcpy/memset and basic block is a yield point at which a seeded scheduler (random preemption, PCT, sequential) decides who runs. Oracles: byte-granular conflict detection (two tasks, same byte, at least one write, no common simulated lock), every return value and output bit-identical to the same program run alone, shared inputs unchanged, no crash/deadlock/step overrun. Exploration over schedules: seeded search, evidence not proof.",
@@ -101,7 +101,7 @@ def main():
              "kind_free_text": "same call in contexts differing only in stack/heap/buffer residue, preceding calls, process image"},
             {"name": "E-HIST-PACKED", "path": "sim/engines/hist_packed.cc", "serves_properties": ["C09"],
              "kind_free_text": "packed-array histories vs reference bit-stream image + access footprint monitor"},
-            {"name": "E-HIST-MATRIX", "path": "sim/engines/hist_matrix.cc", "serves_properties": ["C10"],
+            {"name": "E-HIST-MATRIX", "path": "sim/engines/hist_matrix.cc + sim/engines/hist_matrix_huge.cc", "serves_properties": ["C10"],
              "kind_free_text": "dimension header + matrix cell histories vs byte image model"},
             {"name": "E-FIBER", "path": "sim/seams/fiber.cc + sim/engines/fiber_engine.cc", "serves_properties": ["C17"],
              "kind_free_text": "cooperative fibers, seeded scheduler at TSan-instrumentation yield points, byte-granular conflict detector"},
